@@ -5,6 +5,15 @@ VERIF = os.path.dirname(os.path.dirname(os.path.abspath(__file__)))
 props = [json.loads(l) for l in open(os.path.join(VERIF, "properties.jsonl"))]
 
 CLAIMED = {
+    "C20": dict(
+        text="ModelObjects.tla keeps, per handle, the sequence of variant records [parameters, steady-for, solved-for]; assign/steady/solve/"
+             "alter_num_variants/copy/pickle/dill/save-load are actions; independence (an action changes only its own handle) and duplicate "
+             "equivalence are action properties checked by TLC on every generated step. Simulated behaviours are replayed on a Simultaneous "
+             "growth model with log-variables and on a Sequential model; after every step every variant of every handle is compared with a "
+             "fresh single-variant reference resolved from the record (steady levels/changes, solution matrices, simulations).",
+        note="Trusted: TLC (simulation mode: sampled behaviours). Bounds: 3 handles, <= 3 variants, 2 parameters x 3 values, depth 14. RedVAR is "
+             "not driven through the machine. Two known findings (portable round trip; standard pickle of Sequential).",
+        design="5/C20", technique="TLA+ spec (ModelObjects) with action properties checked by TLC on simulated behaviours; behaviours replayed into irispie"),
     "C19": dict(
         text="Databox.tla models databoxes over a heap of item objects (deep copies allocate, shallow copies share, databox-level overlay/"
              "underlay/clip/prepend act in place, CSV and dataslate round trips create fresh objects with the same content on the selected "
